@@ -92,7 +92,9 @@ def fo_strategy():
         'speed': st.sampled_from([0.0, 5.0, 15.0, 30.0]),
         'heading': st.floats(-180, 180),
         'T': st.sampled_from([20.0, 30.0]),
-        'time_step': st.sampled_from([0.25, 0.5, 1.0]),
+        'time_step': st.sampled_from([0.25, 0.5, 1.0, 0.02]),          # 0.02 is below the IMU interval (0.05 s)
+        'gyro_axes': st.lists(st.booleans(), min_size=3, max_size=3),      # which axes carry a bias state (a disabled axis may precede an enabled one)
+        'accel_axes': st.lists(st.booleans(), min_size=3, max_size=3),
         'with_altitude': st.booleans(),
         'sensors': st.lists(st.sampled_from(['Position', 'NedVelocity', 'BodyVelocity']), min_size=1, max_size=3, unique=True),
         'sm': st.booleans(),
@@ -127,10 +129,16 @@ def _fo_run(ctx, case, s):
     truth = strapdown.Integrator(pva, wa).integrate(clean)
     sds = (10.0 * s, 0.5 * s, 1.0 * s, 5.0 * s)
     smv = 1e-3 * s * np.eye(3) if case['sm'] else None
-    gm = isn.EstimationModel(bias_sd=1e-4 * s, noise=1e-3 * s, bias_walk=1e-5 * s, scale_misal_sd=smv)
-    am = isn.EstimationModel(bias_sd=0.02 * s, noise=5e-3 * s, scale_misal_sd=smv)
+    gax = np.array(case.get('gyro_axes', [True] * 3), float)
+    aax = np.array(case.get('accel_axes', [True] * 3), float)
+    if not gax.any():
+        gax[2] = 1.0
+    if not aax.any():
+        aax[1] = 1.0
+    gm = isn.EstimationModel(bias_sd=1e-4 * s * gax, noise=1e-3 * s, bias_walk=1e-5 * s * gax, scale_misal_sd=smv)
+    am = isn.EstimationModel(bias_sd=0.02 * s * aax, noise=5e-3 * s, scale_misal_sd=smv)
     u = rng.randn(40)                                     # the UNIT realisation, identical for every s
-    bg, ba = 1e-4 * s * u[0:3], 0.02 * s * u[3:6]
+    bg, ba = 1e-4 * s * u[0:3] * gax, 0.02 * s * u[3:6] * aax
     Tg = np.eye(3) + (1e-3 * s * np.diag(u[6:9]) if case['sm'] else 0)
     Ta = np.eye(3) + (1e-3 * s * np.diag(u[9:12]) if case['sm'] else 0)
     inc = clean.copy()
@@ -204,7 +212,9 @@ TAU_SD = 0.02
 def run_first_order(case, ctx):
     ctx.label('mode=3D' if case['with_altitude'] else 'mode=2D', f"sensors={len(case['sensors'])}", 'sm' if case['sm'] else 'no_sm',
               'shared_epochs' if (case['sub'] % 2 == 0 and len(case['sensors']) > 1) else 'separate_epochs',
-              f"step={case['time_step']}", f"speed={case['speed']}")
+              f"step={case['time_step']}", f"speed={case['speed']}",
+              'bias_axes=leading_block' if (sorted(case.get('gyro_axes', [1]), reverse=True) == list(case.get('gyro_axes', [1])) and
+                                            sorted(case.get('accel_axes', [1]), reverse=True) == list(case.get('accel_axes', [1]))) else 'bias_axes=gap_before_enabled')
     D = {}
     LAD = (1.0, 0.1, 0.01, 0.001)
     for s in LAD:
